@@ -4,6 +4,7 @@ import (
 	"fmt"
 	"math"
 	"net/url"
+	"runtime"
 	"strings"
 	"sync"
 	"time"
@@ -291,15 +292,22 @@ func scenC16(c *ctx) {
 
 // randGated: rounds of W concurrent RandomSecret calls that meet inside the random source (see rendezvous)
 func (c *ctx) randGated(prop string, rounds int) {
+	// real parallelism: between "bytes read" and "secret encoded" there is no gate to hold a call at, the calls
+	// released together must actually run at the same time
+	procs := runtime.NumCPU()
+	if procs < 4 {
+		procs = 4
+	}
+	defer runtime.GOMAXPROCS(runtime.GOMAXPROCS(procs))
 	for r := 0; r < rounds; r++ {
-		w := []int{2, 3, 4, 8, 16}[r%5]
+		w := []int{4, 8, 16, 32, 16}[r%5]
 		kind := []string{"rnd", "lin"}[r%2]
 		st := installStream(kind, uint64(c.rng.Int63()), false)
 		st.gate = &rendezvous{}
 		tag := fmt.Sprintf("%s/gated%d-%s-%d", prop, w, kind, r)
 		c.rec.Hold()
 		id := 0
-		for round := 0; round < 3; round++ {
+		for round := 0; round < 8; round++ {
 			st.gate.arm(w)
 			evs := make([]Event, w)
 			var wg sync.WaitGroup
